@@ -250,7 +250,10 @@ pub fn c19(out: &mut Out, tier: &str, rng: &mut Rng) {
                 if n >= 100_000 && rep == 1 && th != 16 { continue; }
                 let (d, _) = dataset_in(rng, n.max(1), 3e11, -20.0, 20.0, FAMILIES);
                 let d = &d[..n];
-                let (mn, mx) = match rep { 0 => (1, usize::MAX), _ => { let a = 1 + rng.below(n / 4 + 2); (a, a + rng.below(n + 1)) } };
+                // splitting limits fix the number of leaves, so the amount of work does not depend on how many cores
+                // (and therefore steals) this machine has; the purely adaptive mode is kept for one small size
+                // (min_len = max_len = k: every split of 2k or more items is forced, none below is allowed)
+                let (mn, mx) = match rep { 0 => if n == 64 { (1, usize::MAX) } else { let k = (n / 64).max(1); (k, k) }, _ => { let k = 1 + rng.below(n / 4 + 2); (k, k) } };
                 let by_ref = rep == 0;
                 par_case::<average::Mean>(out, rng, &pool, d, mn, mx, by_ref, &mut trees);
                 par_case::<average::Variance>(out, rng, &pool, d, mn, mx, by_ref, &mut trees);
